@@ -261,16 +261,6 @@ func genCfg() lm.GenConfig {
 	if ev.Thorough() {
 		cfg = lm.GenConfig{MaxBatches: 10, MaxRecords: 8}
 	}
-	return withKnown(cfg)
-}
-
-// withKnown excludes the known finding's input class by construction (and counts
-// every suppressed draw) iff the finding is recorded as open and still reproduces.
-func withKnown(cfg lm.GenConfig) lm.GenConfig {
-	if knownActive(keyLogAppend) {
-		cfg.NoV1WrapperLogAppendTime = true
-		cfg.Excluded = func() { ev.Excluded(keyLogAppend) }
-	}
 	return cfg
 }
 
@@ -718,10 +708,6 @@ func nearInt64Limit(in []byte) bool {
 // ordering: also assert that offsets are >= the requested one and increase.
 func hostileCheck(t fataler, c call, ordering bool) {
 	o := run(c)
-	if isVarintPanic(&o) && knownActive(keyVarint) {
-		ev.Excluded(keyVarint)
-		return
-	}
 	if o.panicked != nil {
 		report(t, "panic on hostile input", nil, c, &o, nil, 0)
 	}
@@ -863,7 +849,7 @@ func abortedFromBytes(b []byte) []lm.Aborted {
 }
 
 func FuzzProcess(f *testing.F) {
-	gen := lm.GenLog(withKnown(lm.GenConfig{MaxBatches: 5, MaxRecords: 4}))
+	gen := lm.GenLog(lm.GenConfig{MaxBatches: 5, MaxRecords: 4})
 	for seed := 1; seed <= 80; seed++ {
 		l := gen.Example(seed)
 		in, ends := l.Encode()
@@ -928,7 +914,7 @@ func fuzzOne(t *testing.T, in []byte, offset int64, flags byte, ab []byte) {
 // TestFuzzSeedsAreValid keeps the fuzz seeds honest: every seed response is a valid
 // one (it goes through the full model oracle in the quick tier as well).
 func TestFuzzSeedsAreValid(t *testing.T) {
-	gen := lm.GenLog(withKnown(lm.GenConfig{MaxBatches: 5, MaxRecords: 4}))
+	gen := lm.GenLog(lm.GenConfig{MaxBatches: 5, MaxRecords: 4})
 	for seed := 1; seed <= 80; seed++ {
 		l := gen.Example(seed)
 		in, _ := l.Encode()
